@@ -239,7 +239,10 @@ Definition names (v : pyval) : pyval :=
   match v with VList l => VList (map name_of l) | _ => name_of v end.
 
 Lemma item_to_json_type v : is_known_type v = true -> item_to_json X true v = Ok (name_of v).
-Proof. destruct v; try discriminate. reflexivity. Qed.
+Proof.
+  destruct v as [| | | | | | | | t | ]; try discriminate.
+  destruct t; try discriminate; intros _; vm_compute; reflexivity.
+Qed.
 
 Lemma mapM_item_types l : forallb is_known_type l = true -> mapM (item_to_json X true) l = Ok (map name_of l).
 Proof.
@@ -251,7 +254,7 @@ Lemma val_to_json_types v : types_only v = true -> val_to_json X true v = Ok (na
 Proof.
   destruct v; try discriminate; cbn [types_only]; intros H.
   - unfold val_to_json. rewrite (mapM_item_types l H). reflexivity.
-  - reflexivity.
+  - exact (item_to_json_type _ H).
 Qed.
 
 (* ---- literal mappings that are neither escaped by the serialiser nor touched by from_spec ---- *)
@@ -1263,10 +1266,10 @@ Example C11_counterexample_tuple :
   Ok (VDict [(VStr "value.in_", VList [VInt 1; VInt 2])], true, false, VDict [(VStr "value.in_", VList [VInt 1; VInt 2])]).
 Proof. vm_compute. reflexivity. Qed.
 
-(* (d) a type object where no type conversion applies is written as itself: not JSON *)
-Example C11_counterexample_type :
-  roundtrip (L SValue (Q_equal_to (VType TInt))) =
-  Ok (VDict [(VStr "value.equal_to", VType TInt)], false, true, VDict [(VStr "value.equal_to", VType TInt)]).
+(* (d) a type object where no type conversion applies is refused (it used to be written as itself,
+   which is not JSON: repaired defect D44) *)
+Example C11_type_refused :
+  roundtrip (L SValue (Q_equal_to (VType TInt))) = Err TypeError.
 Proof. vm_compute. reflexivity. Qed.
 
 (* (e) a mapping argument with an escaped key: equal condition, but the un-escaped keys move to
